@@ -48,6 +48,15 @@ def check_c08(rep):
     sc = [(f"c08-{p}-{s}", p, *GC.c08_script(s, p)) for i, s in enumerate(seeds(500 if q else 8000, 8))
           for p in (("at4",) if i % 2 == 0 else ("at5",))]
     run_generated(rep, "heartbeat answer patterns (prompt / late by 10 s, 29.875 s, 30.25 s, 60 s / never) over 3..5 beats", sc)
+    # custom interval / timeout configurations: a bare HeartbeatManager on a real socket, one TLC batch per configuration
+    nper = 60 if q else 1500
+    for (iv, to) in GC.HB_CONFIGS:
+        sc = [(f"c08hb-{iv}-{to}-{p}-{s}", p, *GC.c08_custom_script(s, p, iv, to)) for i, s in enumerate(seeds(nper, 8 + iv % 97))
+              for p in (("at4",) if i % 2 == 0 else ("at5",))]
+        verdicts, metas = PC.run_batch(rep, sc, module="Trace_Heartbeat", target="heartbeat",
+                                       cfg=f"CONSTANTS QMAX = 10 HB_I = {iv} HB_T = {to}\nINIT Init\nNEXT Next\nCHECK_DEADLOCK FALSE\n")
+        judge(rep, verdicts, metas)
+        rep.part(f"HeartbeatManager with HeartbeatConfig(interval={iv} ms, timeout={to} ms): answer patterns, silence onsets, stop / start", scripts=len(sc))
     l2c_exhaustive(rep, "heartbeat loop and watchdog: environment budget spent after the first initialisation (at5)",
                    dict(PROTO='"at5"', MaxEnv=6 if q else 8, MaxFrames=9, Notifies="FALSE", PostInit="TRUE"))
     if not q:
@@ -81,6 +90,14 @@ def check_c15_api(rep, n):
         l2c_exhaustive(rep, "shutdown() enabled in every state of the client (at5)", dict(PROTO='"at5"', MaxEnv=11, MaxFrames=7))
         l2c_sensitivity(rep, "F_RECHECK", dict(PROTO='"at4"', MaxEnv=10, MaxFrames=7), "ShutdownIsFinal")
     l2c_replay(rep, 400 if n <= 500 else 8000)
+
+
+def check_c02_api(rep, n):
+    """Which retry policy each public command really gets: a write failure cuts off the command's frame."""
+    sc = [(f"c02api-{p}-{s}", p, *GC.c02_api_script(s, p)) for i, s in enumerate(seeds(n, 2))
+          for p in (("at4",) if i % 2 == 0 else ("at5",))]
+    run_generated(rep, "public commands whose frame is cut off by a write failure: the power toggle is never written again, every other "
+                       "command is (first on the next connection), also when the re-send fails too", sc)
 
 
 def check_c10(rep):
